@@ -174,7 +174,12 @@ def _pct(self, other):
         if in_ip and (_has_sym(other) or isinstance(self, _CHV)):
             STATS["p6"] += 1
             return "<symbolic message>"
-    return _orig_pct(self, other)
+    # same as the stock patch (realise, then format), but without re-entering this patch
+    if not isinstance(self, str):
+        raise TypeError
+    other = _core.deep_realize(other)
+    with NoTracing():
+        return realize(self).__mod__(other)
 
 
 _core._PATCH_REGISTRATIONS[str.__mod__] = _pct
